@@ -531,6 +531,21 @@ impl StakeKeeper {
         Ok(())
     }
 
+    /// Removes the delegator from the staker set of the validator; has to accompany
+    /// every removal of the delegator's entry in `STAKES` outside of `update_stake` and `slash`.
+    fn remove_staker(
+        staking_storage: &mut dyn Storage,
+        delegator: &Addr,
+        validator: &str,
+    ) -> AnyResult<()> {
+        if let Some(mut validator_info) = VALIDATOR_INFO.may_load(staking_storage, validator)? {
+            if validator_info.stakers.remove(delegator) {
+                VALIDATOR_INFO.save(staking_storage, validator, &validator_info)?;
+            }
+        }
+        Ok(())
+    }
+
     // Asserts that the given coin has the proper denominator
     fn validate_denom(&self, staking_storage: &dyn Storage, amount: &Coin) -> AnyResult<()> {
         let staking_info = Self::get_staking_info(staking_storage)?;
@@ -591,8 +606,12 @@ impl StakeKeeper {
                     match delegation {
                         Some(delegation) if delegation.amount.is_zero() => {
                             STAKES.remove(&mut staking_storage, (&delegator, &validator));
+                            Self::remove_staker(&mut staking_storage, &delegator, &validator)?;
                         }
-                        None => STAKES.remove(&mut staking_storage, (&delegator, &validator)),
+                        None => {
+                            STAKES.remove(&mut staking_storage, (&delegator, &validator));
+                            Self::remove_staker(&mut staking_storage, &delegator, &validator)?;
+                        }
                         _ => {}
                     }
 
